@@ -24,7 +24,7 @@ claim("C01", "proof",
       "value tree and background, the in-order setter script run with the library's navigation yields exactly the reference "
       "image Wire.over_message followed by the untouched rest of the background (C01_encode_script_produces_wire_image). "
       "Correspondence: random accepted schemas are compiled by /repo's sbeppc, the generated code runs random in-order encode "
-      "scripts on random backgrounds and the final bytes must equal the extracted reference encoder and the runtime model.",
+      "scripts on random backgrounds and the final bytes must equal the extracted reference encoder and the runtime model. Translator: the primitive->wrapper and size tables regenerated from /repo on every run satisfy C01_source_wrapper_of_each_primitive / C01_source_size_tables_agree.",
       TB + " C++ standards/compilers sampled (quick: g++ C++11/20; thorough adds 14/17/23 and clang++).",
       "Coq proof (layout algebra, codec, frame) + differential correspondence against extracted reference encoder")
 claim("C02", "proof",
@@ -34,7 +34,7 @@ claim("C02", "proof",
       "count), data payloads and size_bytes return exactly what the encoder placed (proved for the root level; any-depth "
       "versions are stated in CursorSpec.v and proved when CursorProofs.v lands). Correspondence: images from the extracted "
       "reference encoder (independent of the library's setters) decoded by /repo's generated code vs. model vs. values "
-      "computed directly from the encoder's block bytes.",
+      "computed directly from the encoder's block bytes. Translator theorems as for C01 (wrapper and size tables regenerated from /repo).",
       TB + " Constant evaluation and all standards x compilers only in the thorough tier / partially.",
       "Coq proof (decode/encode round trip, navigation by induction over the value tree) + differential correspondence")
 claim("C03", "proof",
@@ -79,7 +79,7 @@ claim("C14", "proof",
       "three eos modes, constant-evaluation static_asserts.",
       TB, "Coq proof (list functions) + exhaustive small-scope differential correspondence")
 claim("C15", "proof",
-      "Coq theorems (Properties_C15.v) prove for every width 8/16/32/64, every index inside the width and every underlying value that the model of bitset_base get_bit/set_bit (written through CInt.v, i.e. with C++ integral promotion and shift UB) reads exactly bit n and changes exactly bit n; raw value/equality/visit corollaries. Tied to /repo by running the extracted model and the real bitset_base<T> plus sbeppc-generated set classes (named, by-tag, visit, ==) on the same cases (8/16 bit exhaustive values, patterns for 32/64), under g++ C++11/17(UBSan)/20 and as static_asserts (constant evaluation).",
+      "Coq theorems (Properties_C15.v) prove for every width 8/16/32/64, every index inside the width and every underlying value that the model of bitset_base get_bit/set_bit (written through CInt.v, i.e. with C++ integral promotion and shift UB) reads exactly bit n and changes exactly bit n; raw value/equality/visit corollaries. Tied to /repo by running the extracted model and the real bitset_base<T> plus sbeppc-generated set classes (named, by-tag, visit, ==) on the same cases (8/16 bit exhaustive values, patterns for 32/64), under g++ C++11/17(UBSan)/20 and as static_asserts (constant evaluation). The harness schema also has sparse sets with gaps and out-of-order bit indices, and both the tag-based visit and the name-based visit_set are compared.",
       TB, "Coq proof (Z.testbit algebra over a CInt model) + differential correspondence vs extracted model")
 claim("C19", "proof",
       "Theorems (Properties_C19.v): a complete visit of the image of any well-formed value tree reports exactly ev_level "
@@ -122,14 +122,14 @@ claim("C13", "proof",
       "returned position) for all four length types and both byte orders under vector validity; frame (no byte outside "
       "prefix+max(old,new) payload changes); no spurious assertion; erase up to end(); lifted to arbitrary op sequences by "
       "induction. Correspondence: exhaustive sequences to depth 3 from every small state, random sequences of length 200, "
-      "4 length types x 2 byte orders x char/uint8/int8, asserts on/off.",
+      "4 length types x 2 byte orders x char/uint8/int8, asserts on/off. Also: value arguments that alias an element of the view itself (push_back/insert/resize), and short views whose end lies inside the length prefix (every call must end in the handler).",
       TB, "Coq refinement proof (concrete buffer -> abstract vector) + exhaustive small-scope differential correspondence")
 claim("C16", "proof",
       "16 theorems (Properties_C16.v): default/nullopt is null, has_value/value_or/in_range, all six comparison operators "
       "in BOTH implementations (pre-C++20 operators and operator<=>) equal the documented order for all 11 primitive types "
       "and all values incl. NaN/inf (axiom-free IEEE comparison on bit patterns, cross-checked against Flocq); the 33 "
       "generator default literals denote the SBE defaults; explicit integer attribute texts are reproduced exactly. "
-      "Correspondence: 22 built-in + 79 generated types, full boundary cross product, C++11/17/20, 37k static_asserts.",
+      "Correspondence: 22 built-in + 79 generated types, full boundary cross product, C++11/17/20, 37k static_asserts. Translator: the default min/max/null literal maps of types_compiler.hpp and the SBEPP_BUILT_IN_IMPL invocations of sbepp.hpp are regenerated into Coq on every run and proved to denote the SBE defaults (C16_source_*).",
       TB + " Decimal floating-point attribute literals are checked by the differential run only.",
       "Coq proof (order/null algebra incl. IEEE-754 compare on bit patterns; finite literal tables by vm_compute) + differential correspondence")
 claim("C17", "proof",
@@ -185,7 +185,7 @@ claim("C07", "proof",
       "functions (string_to_number, to_integer_literal, numeric_literal_to_value, make_string_constant, names_generator) "
       "are called directly and compared with the model; random schemas incl. name-clash patterns over a fixed identifier "
       "pool are compiled header-by-header (-fsyntax-only) plus a generated touch-everything TU under g++ C++11/20 and "
-      "clang++ C++17 (all 5 standards x 2 compilers in thorough).",
+      "clang++ C++17 (all 5 standards x 2 compilers in thorough). Identifier sweep: every identifier harvested from the string literals / code templates of /repo's current sbeppc sources is used as the name of a field, a last group, a nested group, a last data member, a public type, an enum value, a set choice and a composite member (fixed core chunk + rotating chunks in quick, all in thorough); it found two genuine defects (member named `last`, type named `tag_invoke`), both repaired.",
       TB + " Include-list closure and detail::schema tag namespaces are sampled only. One open finding (header values that "
       "do not fit the header member type).",
       "Coq proof (literal semantics, name mangling) + compile sampling of generated headers")
@@ -196,7 +196,7 @@ claim("C08", "proof",
       "level headers, names, duplicates, ...); a rejected schema has a rule class; accepted schemas have members in order, "
       "pairwise disjoint, inside their composite/block. Correspondence: one rule-breaking edit at every applicable position "
       "of generated valid schemas plus boundary-valid neighbours: exit status, diagnostic class, location prefix, no output "
-      "files, compared with the model's verdict and the mutation's own oracle.",
+      "files, compared with the model's verdict and the mutation's own oracle. Also: the keyword list regenerated from /repo equals the rules model's (C08_source_keyword_list_is_the_modelled_one); include-split invariance (the same definitions spread over an included file, duplicates on both sides of the boundary) and name mutations with the offending character first / last / alone.",
       TB + " Not modelled: pugixml, attribute text parsing, float range acceptance (oracle bit), unordered_map iteration order.",
       "Coq proof (validator = declarative rules) + structured mutation stream against sbeppc")
 claim("C09", "proof",
@@ -213,7 +213,7 @@ claim("C18", "proof",
       "presence rule, children tag lists in schema order, schema tags distinct, tag-kind predicates exclusive and total); "
       "copy-through attributes (name, id, description, versions, min/max/null) are decided by correspondence only: a "
       "generated trait-dump TU prints every trait of every entity of random schemas and is compared line by line with the "
-      "model / AST expectation (15k trait lines in quick).",
+      "model / AST expectation (15k trait lines in quick). A fixed boundary schema puts every numeric copy-through trait at the limit of its C++ type (message ids beyond 16 bits, member ids at 65535, 64-bit versions, offsets / lengths / block lengths beyond 32 bits).",
       TB, "Coq proof (derived traits) + differential trait dump")
 
 claim("C11", "proof",
